@@ -699,7 +699,7 @@ func valNameD(v ssa.Value, d int) string {
 		return "&" + valNameD(x.X, d+1) + "[" + valNameD(x.Index, d+1) + "]"
 	case *ssa.Phi:
 		if x.Comment != "" {
-			return "phi:" + x.Comment
+			return x.Comment
 		}
 		return "phi"
 	case *ssa.Alloc:
